@@ -1,5 +1,10 @@
 package defers
 
+import (
+	"github.com/awslabs/ar-go-tools/analysis/config"
+	"golang.org/x/tools/go/ssa"
+)
+
 // C16 harnesses: defer-stack kernels (stackCompare, stackSetUnion, stackPushed, dataflowTransfer, AnalyzeFunction).
 
 func c16Stack(name string, n int) Stack {
@@ -214,3 +219,211 @@ func Harness_C16_L3_pushed() {
 		verifAssert("pushed-no-alias-with-argument", specEq(s, s0))
 	}
 }
+
+func stackHas(s Stack, blk, ins int) bool {
+	has := false
+	for _, e := range s {
+		has = verifOr(has, verifAnd(e.Block == blk, e.Ins == ins))
+	}
+	return has
+}
+
+// Harness_C16_L3_transfer: the transfer function of Defer / RunDefers / other instructions.
+func Harness_C16_L3_transfer() {
+	maxN, maxLen := 2, 1
+	if verifTier() > 0 {
+		maxN, maxLen = 2, 2
+	}
+	initial := c16Set("s", maxN, maxLen)
+	init0 := cloneSet(initial)
+	blk, idx := verifInt("blk"), verifInt("ins")
+	kind := verifIntIn("kind", 0, 2)
+	var instr ssa.Instruction
+	switch kind {
+	case 0:
+		instr = &ssa.Defer{}
+	case 1:
+		instr = &ssa.RunDefers{}
+	default:
+		instr = &ssa.Jump{}
+	}
+	final, repeated := dataflowTransfer(blk, idx, &instr, initial)
+	verifReach("transfer")
+	verifAssert("transfer-input-unchanged", specSetEq(initial, init0))
+	switch kind {
+	case 1:
+		verifAssert("rundefers-resets-to-single-empty-stack", verifAnd(len(final) == 1, !repeated))
+		if len(final) == 1 {
+			verifAssert("rundefers-empty-stack", len(final[0]) == 0)
+		}
+	case 2:
+		verifAssert("other-instr-identity", verifAnd(specSetEq(final, initial), !repeated))
+	case 0:
+		// expected elements
+		anyRep := false
+		allIn := true
+		for _, s := range initial {
+			has := stackHas(s, blk, idx)
+			anyRep = verifOr(anyRep, has)
+			pushed := make(Stack, len(s)+1)
+			copy(pushed, s)
+			pushed[len(s)] = InstrIndices{Block: blk, Ins: idx}
+			allIn = verifAnd(allIn, verifOr(verifAnd(has, specContains(final, s)), verifAnd(!has, specContains(final, pushed))))
+		}
+		verifAssert("defer-every-expected-stack-present", allIn)
+		verifAssert("defer-repeated-iff-some-stack-has-it", repeated == anyRep)
+		verifAssert("defer-result-sorted-dedup", specSorted(final))
+		onlyExp := true
+		for _, f := range final {
+			from := false
+			for _, s := range initial {
+				has := stackHas(s, blk, idx)
+				pushed := make(Stack, len(s)+1)
+				copy(pushed, s)
+				pushed[len(s)] = InstrIndices{Block: blk, Ins: idx}
+				from = verifOr(from, verifOr(verifAnd(has, specEq(f, s)), verifAnd(!has, specEq(f, pushed))))
+			}
+			onlyExp = verifAnd(onlyExp, from)
+		}
+		verifAssert("defer-nothing-else", onlyExp)
+	}
+}
+
+// ---- L4: whole function on small CFGs built from struct literals
+
+type c16Block struct {
+	hasDefer bool
+	term     int // 0 return (with RunDefers), 1 jump, 2 if
+	s0, s1   int
+}
+
+func c16BuildCFG(n int) (*ssa.Function, []c16Block, []*ssa.RunDefers) {
+	shape := make([]c16Block, n)
+	blocks := make([]*ssa.BasicBlock, n)
+	for i := 0; i < n; i++ {
+		blocks[i] = &ssa.BasicBlock{Index: i}
+	}
+	rds := make([]*ssa.RunDefers, n)
+	for i := 0; i < n; i++ {
+		sh := &shape[i]
+		sh.hasDefer = verifBool("defer")
+		sh.term = verifIntIn("term", 0, 2)
+		var instrs []ssa.Instruction
+		if sh.hasDefer {
+			instrs = append(instrs, &ssa.Defer{})
+		}
+		switch sh.term {
+		case 0:
+			rd := &ssa.RunDefers{}
+			rds[i] = rd
+			instrs = append(instrs, rd, &ssa.Return{})
+		case 1:
+			sh.s0 = verifIntIn("succ", 0, n-1)
+			instrs = append(instrs, &ssa.Jump{})
+			blocks[i].Succs = []*ssa.BasicBlock{blocks[sh.s0]}
+		case 2:
+			sh.s0 = verifIntIn("succ", 0, n-1)
+			sh.s1 = verifIntIn("succ", 0, n-1)
+			instrs = append(instrs, &ssa.If{})
+			blocks[i].Succs = []*ssa.BasicBlock{blocks[sh.s0], blocks[sh.s1]}
+		}
+		blocks[i].Instrs = instrs
+	}
+	fn := &ssa.Function{Blocks: blocks}
+	return fn, shape, rds
+}
+
+func c16Succs(sh c16Block) []int {
+	switch sh.term {
+	case 1:
+		return []int{sh.s0}
+	case 2:
+		return []int{sh.s0, sh.s1}
+	}
+	return nil
+}
+
+// reach[i][j]: j reachable from i in >= 1 steps
+func c16Reach(shape []c16Block) [][]bool {
+	n := len(shape)
+	r := make([][]bool, n)
+	for i := range r {
+		r[i] = make([]bool, n)
+		for _, s := range c16Succs(shape[i]) {
+			r[i][s] = true
+		}
+	}
+	for k := 0; k < n; k++ {
+		for i := 0; i < n; i++ {
+			for j := 0; j < n; j++ {
+				if r[i][k] && r[k][j] {
+					r[i][j] = true
+				}
+			}
+		}
+	}
+	return r
+}
+
+// c16Paths collects the defer sequences along simple paths from block 0 to target.
+func c16Paths(shape []c16Block, cur, target int, visited []bool, acc Stack, out *StackSet) {
+	if shape[cur].hasDefer {
+		acc = append(acc[0:len(acc):len(acc)], InstrIndices{Block: cur, Ins: 0})
+	}
+	if cur == target {
+		dup := false
+		for _, s := range *out {
+			if specCmp(s, acc) == 0 {
+				dup = true
+			}
+		}
+		if !dup {
+			*out = append(*out, acc)
+		}
+		return
+	}
+	visited[cur] = true
+	for _, s := range c16Succs(shape[cur]) {
+		if !visited[s] {
+			c16Paths(shape, s, target, visited, acc, out)
+		}
+	}
+	visited[cur] = false
+}
+
+func c16Whole(n int) {
+	fn, shape, rds := c16BuildCFG(n)
+	reach := c16Reach(shape)
+	reachable := func(j int) bool { return j == 0 || reach[0][j] }
+	expectUnbounded := false
+	for i := 0; i < n; i++ {
+		if reachable(i) && shape[i].hasDefer && reach[i][i] {
+			expectUnbounded = true
+		}
+	}
+	verifTerminatesWithin("analyze-terminates", 400000)
+	res := AnalyzeFunction(fn, &config.LogGroup{})
+	verifTerminated()
+	verifReach("analyzed")
+	verifAssert("bounded-iff-no-defer-on-reachable-cycle", res.DeferStackBounded == !expectUnbounded)
+	if expectUnbounded {
+		return
+	}
+	for i := 0; i < n; i++ {
+		if rds[i] == nil || !reachable(i) {
+			continue
+		}
+		var expected StackSet
+		c16Paths(shape, 0, i, make([]bool, n), Stack{}, &expected)
+		got := res.RunDeferSets[rds[i]]
+		verifAssert("rundefers-set-includes-every-path-stack", specSubset(expected, got))
+		verifAssert("rundefers-set-has-no-other-stack", specSubset(got, expected))
+		verifAssert("rundefers-set-sorted-dedup", specSorted(got))
+	}
+}
+
+// Harness_C16_L4_cfg2: every CFG of 2 blocks.
+func Harness_C16_L4_cfg2() { c16Whole(2) }
+
+// Harness_C16_L4_cfg3_T: every CFG of 3 blocks (thorough).
+func Harness_C16_L4_cfg3_T() { c16Whole(3) }
